@@ -266,7 +266,7 @@ func c13FileCases(c *core.Check) []c13File {
 	add("yaml-nbsp-utf8", "openapi.yaml", c19Specs["s0"]+"# café ☃ \U0001F600\n")
 	// fixture and example specs of the repository, as they are and with CRLF line ends
 	var paths []string
-	for _, pat := range []string{"/repo/tests/*/openapi.yaml", "/repo/examples/*/openapi.yaml"} {
+	for _, pat := range []string{core.RepoDir() + "/tests/*/openapi.yaml", core.RepoDir() + "/examples/*/openapi.yaml"} {
 		m, _ := filepath.Glob(pat)
 		paths = append(paths, m...)
 	}
